@@ -29,6 +29,7 @@ pub open spec fn wf_aux(a: &AuxiliaryData) -> bool {
     &&& forall |h: UserComponentId| #[trigger] a.handler_id2middleware_ids@.contains_key(h) ==> h.raw < n_comp(a)
     &&& forall |h: UserComponentId| #[trigger] a.handler_id2error_observer_ids@.contains_key(h) ==> h.raw < n_comp(a)
     &&& forall |k: UserComponentId| #[trigger] a.id2scope_id@.contains_key(k) ==> k.raw < n_comp(a)
+    &&& forall |k: UserComponentId| #[trigger] a.id2registration@.contains_key(k) ==> k.raw < n_comp(a)
 }
 /// nothing that was recorded is ever rewritten: components, the chains of known handlers, scopes, interned coordinates
 #[verifier::opaque]
@@ -39,6 +40,7 @@ pub open spec fn grows(a: &AuxiliaryData, b: &AuxiliaryData) -> bool {
     &&& forall |h: UserComponentId| #[trigger] a.handler_id2error_observer_ids@.contains_key(h) ==> b.handler_id2error_observer_ids@.contains_key(h) && obs_chain(b, h) == obs_chain(a, h)
     &&& forall |s: AnnotationCoordinatesId| #[trigger] a.annotation_coordinates_interner@.contains_key(s) ==> b.annotation_coordinates_interner@.contains_key(s) && coords_of(b, s) == coords_of(a, s)
     &&& forall |k: UserComponentId| #[trigger] a.id2scope_id@.contains_key(k) ==> b.id2scope_id@.contains_key(k) && b.id2scope_id@[k] == a.id2scope_id@[k]
+    &&& forall |k: UserComponentId| #[trigger] a.id2registration@.contains_key(k) ==> b.id2registration@.contains_key(k) && b.id2registration@[k] == a.id2registration@[k]
 }
 pub open spec fn handler_tables_untouched(a: &AuxiliaryData, b: &AuxiliaryData) -> bool {
     b.handler_id2middleware_ids@ == a.handler_id2middleware_ids@ && b.handler_id2error_observer_ids@ == a.handler_id2error_observer_ids@
@@ -64,7 +66,11 @@ pub proof fn known_handler_stable(a: &AuxiliaryData, b: &AuxiliaryData, h: UserC
 }
 pub open spec fn aux_same_except_domain_locations(a: &AuxiliaryData, b: &AuxiliaryData) -> bool {
     &&& a.component_interner@ == b.component_interner@ && handler_tables_untouched(a, b)
-    &&& a.id2scope_id@ == b.id2scope_id@ && a.annotation_coordinates_interner@ == b.annotation_coordinates_interner@
+    &&& a.id2scope_id@ == b.id2scope_id@ && a.annotation_coordinates_interner@ == b.annotation_coordinates_interner@ && a.id2registration@ == b.id2registration@
+}
+/// the component interned under index `n` is remembered as registered on a blueprint at exactly this location
+pub open spec fn registered_at(a: &AuxiliaryData, n: int, l: &pavex_bp_schema::Location) -> bool {
+    a.id2registration@.contains_key(id_at(n)) && a.id2registration@[id_at(n)] == (Registration { location: *l, kind: RegistrationKind::Blueprint })
 }
 pub open spec fn is_mw(c: &pavex_bp_schema::Component) -> bool {
     c is WrappingMiddleware || c is PreProcessingMiddleware || c is PostProcessingMiddleware
